@@ -494,6 +494,43 @@ def run_dls(rec, sh, tier, seed):
             rec.note("function seeds %d and 5 give the same attributions here (vacuous probe)" % fs)
         if not torch.allclose(val[0], eb, atol=1e-5) or not torch.allclose(val[1], ea, atol=1e-5):
             rec.violation("ablate:dls_function_seed_not_honoured", case)
+    # ablate's seed as a numpy RandomState object (documented), with a func that has a random_state parameter of its own: the shuffles
+    # are those of shuffle(X, ..., RandomState(seed)); and funcs whose random_state is keyword-only (functools.partial binding an
+    # earlier parameter by keyword, or an explicit `*`): they still receive the stated seed
+    import functools
+    from tangermeme.predict import predict
+
+    def f_rs(model, X, args=None, random_state=None, **kw):
+        return predict(model, X, args=args, **kw)
+
+    for sd in (3, 0, 7, 11):
+        st, val = call(ablate, model2, X2, 4, 18, n=3, random_state=numpy.random.RandomState(sd), func=f_rs, device="cpu")
+        rec.case(1, 1)
+        case = dict(w="ablate", func="custom func with a random_state parameter", ablate_seed="RandomState(%d)" % sd, L=L2)
+        if st != "ok":
+            rec.violation("ablate:raises:random_state_object", case, observed=val)
+        else:
+            Xs = shuffle(X2, start=4, end=18, n=3, random_state=numpy.random.RandomState(sd))
+            ea = predict(model2, Xs.reshape(-1, A, L2), device="cpu").reshape(3, 3, -1)
+            if tuple(val[1].shape) != tuple(ea.shape) or not torch.equal(val[1], ea):
+                rec.violation("ablate:after:random_state_object", case)
+    for fname, fpart in (("partial(deep_lift_shap, hypothetical=True)", functools.partial(deep_lift_shap, hypothetical=True)),
+                         ("keyword-only random_state", None)):
+        if fpart is None:
+            def fpart(model, X, args=None, *, random_state=None, **kw):
+                return deep_lift_shap(model, X, args=args, hypothetical=True, random_state=random_state, **kw)
+        st, val = call(ablate, model2, X2, 4, 18, n=2, random_state=5, func=fpart, device="cpu", additional_func_kwargs=dict(n_shuffles=3))
+        rec.case(1, 1)
+        case = dict(w="ablate", func=fname, ablate_seed=5, L=L2)
+        if st != "ok":
+            rec.violation("ablate:raises:keyword_only_seed", case, observed=val)
+            continue
+        kwf = dict(n_shuffles=3, random_state=5, device="cpu", hypothetical=True)
+        eb = deep_lift_shap(model2, X2, **kwf)
+        Xs = shuffle(X2, start=4, end=18, n=2, random_state=5)
+        ea = deep_lift_shap(model2, Xs.reshape(-1, A, L2), **kwf).reshape(3, 2, A, L2)
+        if not torch.allclose(val[0], eb, atol=1e-5) or not torch.allclose(val[1], ea, atol=1e-5):
+            rec.violation("ablate:dls_function_seed_not_honoured:keyword_only", case)
     rec.sample(dict(w="dls", L=L, wrappers=["marginalize", "ablate", "space"], func="deep_lift_shap(n_shuffles=3, random_state=5)"))
 
 
